@@ -397,6 +397,8 @@ def run_enumerated(
             st.step("observer", {"op": "obs_draw", "mode": "input+output", "shifts": True}, "observe/obs_draw")
         if fr.random() < profile.get("restart_p", 0.35) and ctx.sut.restarts < profile["max_restarts"]:
             k = G.wpick(fr, profile["restart_kinds"])
+            if k == "restart_abstract" and any(not isinstance(q, str) for q in ctx.qids):
+                k = "restart_legacy"  # the abstract representation stringifies integer ids
             op = {"op": k}
             if k == "restart_abstract":
                 op["skip"] = fr.random() < 0.8
